@@ -20,6 +20,16 @@ func TestRegress_Accept(t *testing.T) {
 		"(class{static async\n(){}})": "Stmt(Decl(class Method(static async Params() Stmt({ }))))",
 		"(class{async\nm(){}})":       "Stmt(Decl(class Field(async) Method(m Params() Stmt({ }))))",
 		"import(0).p\n;":              "Stmt((import(0)).p)",
+		// 0bc1376, e3b9df3: the no-in restriction of a for head ends at argument lists, optional indexes and pattern initialisers
+		"for(a=new f(b in c);;);":  "Stmt(for (a=(new f((b in c)))) ; ; Stmt({ }))",
+		"for(a=x?.(b in c);;);":    "Stmt(for (a=(x?.((b in c)))) ; ; Stmt({ }))",
+		"for(a=x?.[b in c];;);":    "Stmt(for (a=(x?.[(b in c)])) ; ; Stmt({ }))",
+		"for(var {a=0 in b}=c;;);": "Stmt(for Decl(var Binding({ Binding(a = (0 in b)) } = c)) ; ; Stmt({ }))",
+		// ee8479d: yield without operand before a template continuation
+		"function*f(){x=`${yield}`}": "Decl(function* f Params() Stmt({ Stmt(x=`${(yield)}`) }))",
+		// 0032118: computed keys in arrow heads are expressions
+		"x=({[[...(a),]]:v1,v2})=>{}": "Stmt(x=(Params(Binding({ [[...(a)]]: Binding(v1), Binding(v2) })) => Stmt({ })))",
+		"x=({[k]:v})=>k":              "Stmt(x=(Params(Binding({ [k]: Binding(v) })) => Stmt({ Stmt(return k) })))",
 	} {
 		ast, err := js.Parse(parse.NewInputString(src), js.Options{})
 		if err != nil {
